@@ -672,7 +672,7 @@ impl<'a> Gen<'a> {
             let h = e;
             let mut v = vec![Op::Spawn { h, cfg }];
             // a long session now and then: the memo grows past any plausible bound
-            let long_session = e == 1 && self.rng.pct(10);
+            let long_session = e == 1 && self.rng.pct(16);
             let style = if long_session { 1 } else { self.rng.weighted(&[40, 40, 20]) };
             if style >= 1 {
                 // warm context: earlier words that poison the memo
@@ -925,7 +925,7 @@ impl<'a> Gen<'a> {
                     }
                 }
                 Some(l) => {
-                    if g.rng.pct(7) {
+                    if g.rng.pct(14) {
                         // a key that composes nothing while idle (the vowel sign without an
                         // independent form under auto vowel, a key without a value), then
                         // most often a backspace while still idle
